@@ -6,7 +6,8 @@ acquire/release pairing on all paths; R4 constructor/destructor and init/destroy
 release of per-thread processors; R6 collector ownership of parameter objects created by readers;
 R7 objects and arrays created in a library function with uninitialised contents (the coefficient arrays behind new_LweSample,
 new_TLweSample, new_TorusPolynomial, ..., plain new[]/malloc/stack arrays) are written before they are read on every path;
-R8 no address of thread storage escapes into longer-lived objects; R9 the arrays of an object created in a function
+R11 the key generators write every row of the row arrays that the init_ functions create uninitialised (row index sets
+enumerated from the loop descriptors); R8 no address of thread storage escapes into longer-lived objects; R9 the arrays of an object created in a function
 (extent from its constructor arguments) cover what every callee indexes through it (field requirements of the callee);
 R10 memcpy/memmove/memset ranges over arrays held in object fields stay inside the extent the owning object determines
 (zero instances on the unchanged tree: the library has no such call; exercised by the seeded change C14b and a benign rewrite).
@@ -96,6 +97,7 @@ def run(chk):
                                 variant=vn)
         chk.set_count("R1.local_arrays", narr)
         check_initialised(chk, v, fns)
+        check_generated_rows(chk, v)
         chk.set_count("R9.sized_object_uses", nsized)
         chk.set_count("R10.memcpy_ranges_over_field_arrays", nmem)
         chk.set_count("R3.allocations_in_functions", npair)
@@ -548,3 +550,123 @@ def check_initialised(chk, v, fns):
                 chk.proved("R7", key, where=where, detail="uninitialised at birth: %s; first access on every path is a write" % (
                     sorted(".".join(p) or "elements" for p in up)), variant=vn)
     chk.vcount(vn, "R7.objects_created_uninitialised", nobj)
+
+
+# ------------------------------------------------------------------------------ R11: key generators write every row they own
+KEY_GENERATORS = {
+    # generator: (index of the output key parameter, record, raw row array field)
+    "lweCreateKeySwitchKey": (0, "LweKeySwitchKey", "ks0_raw"),
+    "tfhe_createLweBootstrappingKey": (0, "LweBootstrappingKey", "bk"),
+}
+
+
+def check_generated_rows(chk, v):
+    """The rows of a key are created uninitialised (new_LweSample_array / new_TGswSample_array leave the coefficient arrays
+    unwritten) by the init_ function and filled by the generator.  Every row must be written by the generator, because
+    conversion to the FFT key and export read all of them: the set of row indices the generator passes to functions that
+    write the whole sample is enumerated from the loop descriptors on a grid of the dimensions and compared with
+    [0, extent of the row array)."""
+    import itertools
+    from sa import initflow, secretflow, summ
+    from sa.pipeline import AnalysisBroken
+    vn = v.name
+    IF = initflow.InitFlow(v)
+    FL = secretflow.Flow(v, set())
+    NO = summ.InlineLib(only=lambda fn: False)
+    for gname, (pi, rec, field) in sorted(KEY_GENERATORS.items()):
+        g = v.fn(gname, required=False)
+        if g is None:
+            chk.broken("key generator %s not found" % gname)
+        ps, _ = summ.pieces(v, g, hooks=NO)
+        roots = FL.roots_of(g, ps)
+        R = lambda t: bounds.apply_relations(v, t, roots, FL.rel)
+        out = sym.sym(g.params[pi]["n"])
+        rowarr = None
+        writers = []
+        for p in ps:
+            if p["kind"] != "call" or not p["args"] or p["args"][0] is None or sym.root_of(p["args"][0]) != out:
+                continue
+            callee = v.defs.get((p.get("eff") or {}).get("usr"))
+            if callee is None:
+                continue
+            summ_ = IF.summary(callee.usr) or {}
+            first = summ_.get(0, {})
+            elem_rec = next((r_ for r_ in c17_records(v, callee.params[0]["t"])), None)
+            up = IF.uninit_paths(elem_rec) if elem_rec else set()
+            if not up or not all(first.get(q, first.get(IF.canon(elem_rec, q))) == "W" or
+                                 any(first.get(q2) == "W" for q2 in first if IF.canon(elem_rec, q2) == IF.canon(elem_rec, q)) for q in up):
+                continue            # does not write the whole sample
+            slot = R(FL.resolve_tables(sym.idx(p["args"][0], sym.ZERO), roots))
+            if not (slot[0] == "idx" and slot[1][0] == "fld"):
+                # the key's row array may sit behind another pointer (bk->ks for the bootstrapping key): only direct rows here
+                continue
+            if slot[1][2] != field:
+                continue
+            rowarr = slot[1]
+            writers.append((p, slot[2]))
+        key = "%s writes every row of %s::%s" % (gname, rec, field)
+        if not writers:
+            chk.broken("%s: no row-writing call found" % gname)
+        ext = FL.field_extent(rec, field)
+        if ext is None:
+            chk.broken("%s: extent of %s::%s not derivable" % (gname, rec, field))
+        # the init_ function's own parameters (n, t, basebit) are what the constructor stores in the fields of the same name
+        fnames = {fl["n"] for fl in v.records[rec]["fields"]}
+        ext = sym.rewrite(ext, {a: sym.sym("%s.%s" % (rec, a[1])) for a in sym.atoms(ext) if a[0] == "sym" and a[1] in fnames})
+        terms = [FL.canon_dims(R(ix), roots) for _, ix in writers]
+        loops_all = [l for p, _ in writers for l in p["loops"]]
+        loopvars = {l["var"] for l in loops_all}
+        bound_terms = [FL.canon_dims(R(l[k]), roots) for l in loops_all for k in ("lo", "hi")] + terms + [ext]
+        dims = sorted({a for t in bound_terms for a in sym.atoms(t) if a not in loopvars and a[0] == "sym"}, key=repr)
+        if len(dims) > 4:
+            chk.broken("%s: too many dimensions %s" % (gname, [sym.show(d) for d in dims]))
+        wit = None
+        npts = 0
+        for vals in itertools.product((1, 2, 3), repeat=len(dims)):
+            env0 = dict(zip(dims, vals))
+            tot = secretflow.eval_term(ext, env0)
+            if tot is None:
+                chk.broken("%s: extent %s not evaluable" % (gname, sym.show(ext)))
+            seen = set()
+            for (p, _), ixc in zip(writers, terms):
+                def go(k, env):
+                    if k == len(p["loops"]):
+                        for g_ in p["guards"]:
+                            gv = secretflow.eval_term(FL.canon_dims(R(g_), roots), env)
+                            if gv is None:
+                                raise AnalysisBroken("%s: guard not evaluable" % gname)
+                            if not gv:
+                                return
+                        x = secretflow.eval_term(ixc, env)
+                        if x is None:
+                            raise AnalysisBroken("%s: row index %s not evaluable" % (gname, sym.show(ixc)))
+                        seen.add(x)
+                        return
+                    l = p["loops"][k]
+                    lo = secretflow.eval_term(FL.canon_dims(R(l["lo"]), roots), env)
+                    hi = secretflow.eval_term(FL.canon_dims(R(l["hi"]), roots), env)
+                    st = sym.const_value(l["step"])
+                    if lo is None or hi is None or not st or st <= 0 or l["cmp"] not in ("<", "<="):
+                        raise AnalysisBroken("%s: loop at line %s not evaluable" % (gname, l.get("l")))
+                    x = lo
+                    while (x < hi) if l["cmp"] == "<" else (x <= hi):
+                        e2 = dict(env)
+                        e2[l["var"]] = x
+                        go(k + 1, e2)
+                        x += st
+                go(0, env0)
+            npts += 1
+            missing = sorted(set(range(tot)) - seen)
+            if missing and wit is None:
+                wit = (env0, missing[0], tot, len(seen))
+        chk.require(wit is None, "R11", key, where=g.where,
+                    ok="%d row-writing call site(s); all %s rows written on %d grid points of %s" % (len(writers), sym.show(ext), npts, [sym.show(d) for d in dims]),
+                    bad="" if wit is None else "with %s: row %d of the %d rows is never written by %s (%d are): it keeps the uninitialised coefficient array it got from "
+                        "new_*_array, which init_LweBootstrappingKeyFFT copies and the export functions write out" % (
+                            ", ".join("%s = %d" % (sym.show(d), x) for d, x in wit[0].items()), wit[1], wit[2], gname, wit[3]), variant=vn)
+    chk.vcount(vn, "R11.key_generators", len(KEY_GENERATORS))
+
+
+def c17_records(v, t):
+    from rules.c17 import record_names_in_type
+    return sorted(record_names_in_type(t, v.records))
